@@ -603,6 +603,25 @@ ExecutedOnce ==
   /\ phase = "produced" => NoDup(prod.txs) /\ ToSet(prod.txs) \cap ToSet(gh.executed) = {}
 DupRejected == \A i \in DOMAIN tampers : tampers[i].kind \in {"dupTx", "dupInBlock"} => tampers[i].res = "Reject"
 
+(* ---- C07 ----------------------------------------------------------------*)
+\* The harness built with the wasm strategy runs every produce / validate / tampered validate with both
+\* Executor::native and Executor::wasm on the same parent state and inputs; the events of the primary
+\* strategy are the trace (accepted by this spec), the other strategy's outcome is in the `other` field:
+\* same success, same block id, same digests of Changes / statuses / events, same skipped list, or the
+\* same error class.
+HasOther(r) == "other" \in DOMAIN r
+WasmEqualsNative ==
+  /\ (phase \in {"produced", "committed", "failed"} /\ HasOther(prod)) =>
+        /\ prod.other.ok = prod.ok
+        /\ prod.ok => /\ prod.other.bid = prod.bid /\ prod.other.dg = prod.dg
+                      /\ prod.other.skipped = prod.skippedIds
+        /\ ~prod.ok => prod.other.err = prod.err
+  /\ \A i \in DOMAIN vals : HasOther(vals[i]) =>
+        /\ vals[i].other.res = vals[i].res /\ vals[i].other.reason = vals[i].reason
+        /\ vals[i].other.dg = vals[i].dg
+  /\ \A i \in DOMAIN tampers : HasOther(tampers[i]) =>
+        tampers[i].other.res = tampers[i].res /\ tampers[i].other.reason = tampers[i].reason
+
 (* ---- type/sanity ----------------------------------------------------------*)
 PhaseOk == phase \in {"unborn", "idle", "producing", "produced", "failed", "committed"}
 
